@@ -17,6 +17,7 @@ import (
 	"sort"
 	"strings"
 	"sync/atomic"
+	"time"
 
 	"github.com/codenotary/immudb/embedded/ahtree"
 	"github.com/codenotary/immudb/embedded/appendable"
@@ -73,7 +74,11 @@ func replicateRun(skipIntegrity bool) func(e *enc, in []byte) string {
 		must(err)
 		defer st.Close()
 		before := stateOf(st)
-		hdr, err := st.ReplicateTx(bg, in, skipIntegrity, false)
+		// a transaction id ahead of the replica makes ReplicateTx wait for its predecessor until the context ends
+		// (by design), hence the deadline; it only decides between "err: context deadline exceeded" and waiting
+		ctx, cancel := context.WithTimeout(bg, 300*time.Millisecond)
+		defer cancel()
+		hdr, err := st.ReplicateTx(ctx, in, skipIntegrity, false)
 		if err == nil {
 			if hdr == nil || st.LastCommittedTxID() != before.committed+1 {
 				return fmt.Sprintf("VIOL partial-effect: ReplicateTx returned no error but committed tx id went %d -> %d", before.committed, st.LastCommittedTxID())
@@ -219,7 +224,7 @@ func vrefRun(e *enc, in []byte) string {
 
 // fileEncs: one encoding per file below tpl. Eligible positions: the whole file when it has at most `whole`
 // bytes, otherwise the metadata header plus the first and last 64 bytes of the body; files for which lite
-// returns true (they are covered by a dedicated target) only get the first 8 and the last 64 bytes.
+// returns true (they are covered by a dedicated target) only get the first 8 and the last 32 bytes.
 func fileEncs(target, tpl string, whole int, lite func(rel string) bool) {
 	var rels []string
 	filepath.Walk(tpl, func(p string, fi os.FileInfo, err error) error {
@@ -236,11 +241,12 @@ func fileEncs(target, tpl string, whole int, lite func(rel string) bool) {
 		var pos []int
 		if len(bs) > whole {
 			h := fileHeaderLen(bs) + 64
+			t := 64
 			if lite != nil && lite(rel) {
-				h = 8
+				h, t = 8, 32
 			}
 			for i := range bs {
-				if i < h || i >= len(bs)-64 {
+				if i < h || i >= len(bs)-t {
 					pos = append(pos, i)
 				}
 			}
@@ -553,5 +559,5 @@ func buildMoreTargets(thorough bool) {
 	addTarget(thorough, 256, "ahtree.Open+read", -1, -1, ahtRun)
 	addTarget(thorough, 256, "singleapp.Open+read", -1, -1, singleappRun)
 	addTarget(thorough, 256, "multiapp.Open+read", -1, -1, multiappRun)
-	addTarget(thorough, 4096, "pgsql.session", 2, 2, pgSessionRun).init = pgSessionInit
+	addTarget(thorough, 4096, "pgsql.session", 1, 2, pgSessionRun).init = pgSessionInit
 }
